@@ -6,14 +6,24 @@ V = os.path.dirname(os.path.dirname(os.path.abspath(__file__)))
 CHECKS = {
  'C01': ('exploration', 'model-generated diffs x unified-view option sets; independent terminal model + reserved-colour row tagging; every hunk line matched once, in order, inside its file section',
          'runtime monitor: reference input model + terminal-model oracle over generated executions of the real binary', '5/C01'),
+ 'C02': ('exploration', 'line law (one output line per input line) on every run and text law on every non-exempt line, over real git output and synthetic inputs of every kind x option sets with --color-only given on the command line and/or through a generated gitconfig',
+         'runtime monitor: line-for-line input/output comparison with the terminal model as visible-text oracle', '5/C02'),
  'C03': ('exploration', 'generated and structurally mutated inputs of every kind x hostile option sets accepted by delta, run on a build with overflow checks and debug assertions; monitors exit status, stderr, signals, consumption of stdin, peak RSS, bounded termination',
          'runtime monitor: crash/hang/allocation oracle on the real binary built with overflow checks (sanitizer tiers in thorough)', '5/C03'),
+ 'C04': ('exploration', 'byte-exact in-order comparison of pass-through lines (real git log/status/branch output, prose, embedded SGR, CRLF, invalid UTF-8, over-long lines) alone and interleaved with rendered sections',
+         'runtime monitor: byte-exact ordered-subsequence oracle with anchors for rendered sections', '5/C04'),
+ 'C05': ('exploration', 'expected old/new numbers computed from the generated diff model and compared with the number fields parsed from tagged gutters in unified (-n) and side-by-side view, plus hunk-header number and path',
+         'runtime monitor: reference counter model vs gutter fields decoded by the terminal model', '5/C05'),
+ 'C07': ('exploration', 'per row: width, panel boundary column, line kinds per panel; per line and side: fragments across rows re-joined and compared with the model line, wrap limits and truncation rules',
+         'runtime monitor: geometry invariants + lossless-reassembly oracle over tagged side-by-side rows', '5/C07'),
  'C08': ('exploration', 'relational monitor over pairs of runs (real git --color=never/always and a synthetic colouriser covering git\'s layouts): byte equality; per-cell rendition equality for specially coloured and raw-styled lines',
          'runtime monitor: relational (coloured vs plain) oracle + terminal-model cell comparison', '5/C08'),
  'C09': ('exploration', 'terminal-model state checked at every newline of every output row over a mixed workload (all views, wrapping/truncation forced, hyperlinks, pipe and pty)',
          'runtime monitor: online terminal-state checker (SGR/OSC 8 balance, no split sequences)', '5/C09'),
  'C10': ('exploration', 'stdout(A1..An) compared byte-for-byte with the concatenation of stdout(Ai) for sequences of complete file sections, all ordered pairs of (kind, ending) shapes in the thorough tier; repeated fresh-process runs for determinism',
          'runtime monitor: relational (concatenation / re-run) oracle over section histories', '5/C10'),
+ 'C15': ('exploration', 'pairs of runs differing only in syntax theme (or in a file name of the same kind) compared cell by cell: characters, widths, backgrounds, attributes, links identical; foreground may differ only inside syntax-marked style slots',
+         'runtime monitor: relational cell-by-cell oracle over theme pairs and rename pairs', '5/C15'),
  'C19': ('exploration', 'pairs of runs with hyperlinks off/on: OSC-8-stripped bytes identical; every link closed on its line; file and commit link targets recomputed independently from the input model and the displayed numbers',
          'runtime monitor: relational (hyperlinks on vs off) oracle + link-target reference model', '5/C19'),
 }
